@@ -174,7 +174,8 @@ async fn run_async(item: &Value, datasets: &Datasets, exec: &Value, out: &mut Va
         let (schema, parts) = sqlexec::table_partitions(t, &opts);
         let name = t["name"].as_str().unwrap().to_string();
         let endless = t.get("endless").and_then(|x| x.as_bool()).unwrap_or(false);
-        let tp = FaultyTable { name: name.clone(), schema, parts: Arc::new(parts), ctl: Arc::clone(&ctl), endless, token: Arc::clone(&token) };
+        let declared_bounded = t.get("declared_bounded").and_then(|x| x.as_bool()).unwrap_or(false);
+        let tp = FaultyTable { name: name.clone(), schema, parts: Arc::new(parts), ctl: Arc::clone(&ctl), endless, declared_bounded, token: Arc::clone(&token) };
         ctx.register_table(name.as_str(), Arc::new(tp)).map_err(|e| e.to_string())?;
     }
 
